@@ -90,7 +90,7 @@ KNOWN_ATTRS = {
     'Discard': {'expr1', 'expr2', 'discard_left', 'program_id'},
     'Choice': {'exprs', 'program_id'},
     'Opt': {'expr', 'program_id'},
-    'List': {'expr', 'min_len', 'max_len', 'program_id'},
+    'List': {'expr', 'min_len', 'max_len', 'program_id', 'local_names'},
     'Expect': {'expr', 'program_id'},
     'ExpectNot': {'expr', 'program_id'},
     'Skip': {'exprs', 'program_id'},
@@ -98,13 +98,13 @@ KNOWN_ATTRS = {
     'Backtrack': {'amount', 'program_id'},
     'Fail': {'message', 'program_id'},
     'Sep': {'expr', 'separator', 'discard_separators', 'allow_trailer', 'allow_empty', 'require_separator', 'program_id'},
-    'PythonExpression': {'source_code', 'program_id'},
+    'PythonExpression': {'source_code', 'program_id', 'local_names'},
     'Apply': {'expr1', 'expr2', 'apply_left', 'program_id'},
     'Where': {'expr', 'predicate', 'program_id'},
     'Let': {'name', 'expr', 'body', 'shadows', 'program_id'},
     'Call': {'func', 'args', 'program_id'},
     'OperatorTable': {'operand_str', 'row_strs', 'prefixes', 'operands', 'postfixes', 'infixes', 'num_blocks', 'program_id'},
-    'Rule': {'name', 'params', 'expr', 'is_ignored', 'is_omitted', 'program_id'},
+    'Rule': {'name', 'params', 'expr', 'is_ignored', 'is_omitted', 'program_id', 'is_field'},
     'Class': {'name', 'params', 'members', 'is_ignored', 'extra_id', 'program_id'},
 }
 
